@@ -12,6 +12,7 @@ import (
 	"path/filepath"
 	"strings"
 	"testing"
+	"time"
 
 	"github.com/rogpeppe/go-internal/cache"
 	"pgregory.net/rapid"
@@ -31,6 +32,7 @@ type Step struct {
 	How     string `json:"how,omitempty"`    // truncate extend flip delete replace nearvalid
 	Arg     int    `json:"arg,omitempty"`
 	Variant int    `json:"variant,omitempty"`
+	Secs    int64  `json:"secs,omitempty"` // clock: signed step of the simulated clock
 }
 
 type Plan struct {
@@ -59,7 +61,11 @@ func genPlan(t *rapid.T, tier string) any {
 	n := rapid.IntRange(1, max).Draw(t, "nsteps")
 	for i := 0; i < n; i++ {
 		s := Step{ID: rapid.IntRange(0, nIDs-1).Draw(t, "id")}
-		switch k := rapid.IntRange(0, 11).Draw(t, "kind"); {
+		switch k := rapid.IntRange(0, 12).Draw(t, "kind"); {
+		case k == 12:
+			// the wall clock steps (forwards, or backwards as after an NTP correction or a restored VM)
+			s.Kind = "clock"
+			s.Secs = rapid.SampledFrom([]int64{1, 3599, 3601, 86400, 6 * 86400, 400 * 86400, -1, -3599, -3601, -7200, -86400, -6 * 86400}).Draw(t, "clockstep")
 		case k <= 2:
 			s.Kind = "put"
 			s.Content = rapid.IntRange(0, nc-1).Draw(t, "content")
@@ -176,6 +182,13 @@ func run(t *testing.T, plan any, keep bool) *simcheck.Outcome {
 	indexDamaged := make([]bool, nIDs)
 	dataDamaged := map[cache.OutputID]bool{}
 	damageSeen, lookupAfterDamage, repairs := false, 0, 0
+	// byte slices handed out by GetBytes, with a private copy: they belong to the caller from then on
+	type heldBytes struct {
+		got, copy []byte
+		where     string
+	}
+	var held []heldBytes
+	clockBack := 0
 
 	rep := simrt.Run(t, simrt.Options{Sched: simrt.Sched{Policy: "random", Seed: 1}, Strict: true, MaxSteps: 200000, KeepTrace: keep}, func(s *simrt.Sim) {
 		c, err := cache.Open(dir)
@@ -191,7 +204,18 @@ func run(t *testing.T, plan any, keep bool) *simcheck.Outcome {
 			if damageSeen && (st.Kind == "get" || st.Kind == "getbytes" || st.Kind == "getfile") {
 				lookupAfterDamage++
 			}
+			for _, h := range held {
+				if !bytes.Equal(h.got, h.copy) {
+					out.Violate("bytes-changed-after-return", "%s: the bytes returned earlier by %s changed in the caller's hands", where, h.where)
+					return
+				}
+			}
 			switch st.Kind {
+			case "clock":
+				simtime.Advance(time.Duration(st.Secs) * time.Second)
+				if st.Secs < 0 {
+					clockBack++
+				}
 			case "put", "putreader":
 				data := contents[st.Content]
 				wasDamaged := dataDamaged[outIDs[st.Content]]
@@ -230,6 +254,9 @@ func run(t *testing.T, plan any, keep bool) *simcheck.Outcome {
 				}
 			case "getbytes":
 				data, e, err := c.GetBytes(id)
+				if err == nil && len(held) < 8 {
+					held = append(held, heldBytes{data, append([]byte(nil), data...), where})
+				}
 				if err == nil {
 					if sha256.Sum256(data) != e.OutputID {
 						out.Violate("bad-bytes", "%s: GetBytes returned %d bytes whose SHA-256 is not the reported OutputID %x", where, len(data), e.OutputID[:4])
@@ -367,12 +394,16 @@ func run(t *testing.T, plan any, keep bool) *simcheck.Outcome {
 		out.Inconclusive = "single-task run did not finish: " + rep.DescribeBlocked()
 	}
 	out.Nontrivial = lookupAfterDamage > 0
+	if d := simtime.Offset().Seconds(); d > 0 {
+		out.SimSeconds = d
+	}
 	ops, _ := simos.Counters()
 	for k, v := range ops {
 		out.Count("op_"+k, v)
 	}
 	out.Count("lookups_after_damage", int64(lookupAfterDamage))
 	out.Count("repairs_by_put", int64(repairs))
+	out.Count("fault_clock_stepped_back", int64(clockBack))
 	for _, st := range p.Steps {
 		if st.Kind == "damage" {
 			out.Count("damage_"+st.Target+"_"+st.How, 1)
@@ -385,8 +416,8 @@ var harness = &simcheck.Harness{
 	Property: "C05",
 	Level:    "exploration",
 	Rule: "rapid draws a history of up to 14 (quick) / 25 (thorough) steps over 3 action ids and up to 4 contents of sizes {0,1,2,100,5000,40000}: " +
-		"Put (PutBytes or a chunking ReadSeeker), Get, GetBytes, GetFile, OutputFile, and damage steps applied with the raw OS between operations " +
-		"(truncate/extend/flip/delete/replace of index or data files, data files replaced by symbolic links, 23 kinds of nearly valid index entries); non-trivial = at least one lookup after a damage step; " +
+		"Put (PutBytes or a chunking ReadSeeker), Get, GetBytes, GetFile, OutputFile, steps of the wall clock (1s .. 400d forwards, 1s .. 6d backwards), and damage steps applied with the raw OS between operations " +
+		"(truncate/extend/flip/delete/replace of index or data files, data files replaced by symbolic links, 23 kinds of nearly valid index entries); every byte slice returned by GetBytes is re-compared with a private copy before each later step; non-trivial = at least one lookup after a damage step; " +
 		"distinct by the hash of the intercepted file-operation sequence",
 	Gen:     genPlan,
 	NewPlan: func() any { return &Plan{} },
@@ -395,7 +426,7 @@ var harness = &simcheck.Harness{
 		"cache, lockedfile, filelock": "real code from /repo's working tree, recompiled with substituted imports",
 		"file system":                 "real kernel file system in a private directory, reached through verif/sim/os",
 		"damage":                      "injected by the harness with the raw OS between operations",
-		"clock":                       "synctest fake clock (constant in this check)",
+		"clock":                       "simulated: time.Now in cache -> verif/sim/time; stepped forwards and backwards by clock steps of the history",
 	},
 	Assumptions: []string{
 		"single task: no concurrency and no I/O faults in this check (those are C11 and C12); the fault dimension is damage at rest",
